@@ -220,8 +220,11 @@ class World:
         self.src, self.tree = parse_repo_file(file)
         self.classes: dict[str, ClassInfo] = {}
         for name, fields in (classes or {}).items():
-            _, node = find_def(file, name)
-            self.classes[name] = ClassInfo(name, node, fields, file, self.src)
+            cfile = file
+            if isinstance(fields, tuple):
+                cfile, fields = fields
+            csrc, node = find_def(cfile, name)
+            self.classes[name] = ClassInfo(name, node, fields, cfile, csrc)
         self.functions = {}
         for fn in functions:
             _, node = find_def(file, fn)
@@ -476,6 +479,8 @@ def fresh(ctx: Ctx, t: T, name):
         return SeqV(z3.Const(ctx.fresh_name(name), z3.SeqSort(w.sort_of(t.args[0]))), t.args[0], t.kw.get("tuple", False))
     if t.kind == "const":
         return t.args[0]
+    if t.kind == "classref":
+        return FuncRef("class", t.args[0], w.classes[t.args[0]])
     raise Unsupp(f"fresh value of type {t}")
 
 
@@ -483,6 +488,8 @@ def concretize(world, v, model):
     """symbolic value + model -> plain python data (ints, bools, lists, dict for records)"""
     if isinstance(v, (int, bool, str, float)) or v is None:
         return v
+    if isinstance(v, FuncRef):
+        return {"__classref__": v.name}
     if isinstance(v, FloatV):
         r = model.eval(v.t, model_completion=True)
         try:
